@@ -193,6 +193,16 @@ def _quads(P, forms=(0, 1, 2)):
     return out
 
 
+# nested, not yet normal connectors with duplicated / absorbable operands: with a small max_distance the distributive rewrite of
+# normalize() starts (the estimate is within the limit) and gives up half way (an intermediate expression exceeds it)
+_GIVE_UP = [
+    "(k OR ((x = 1 OR y = 1) OR b)) OR (((x < 2 OR b) AND x >= 1) OR x >= 1)",
+    "(k AND ((x = 1 AND y = 1) AND b)) AND (((x < 2 AND b) OR x >= 1) AND x >= 1)",
+    "((x = 1 OR b) AND (k OR b)) OR ((x < 2 AND b) OR (x >= 1 AND (k OR x = 1)))",
+    "((x = 1 AND b) OR (k AND b)) AND ((x < 2 OR b) AND (x >= 1 OR (k AND x = 1)))",
+]
+
+
 def _elim_patterns():
     """the shapes absorb_and_eliminate / remove_complements look for, in every operand order and with the negated operand on
     either side:  (A . B) o (NOT A . B)  and  A o (A . B),  A o (NOT A . B)   for (., o) = (AND, OR) and (OR, AND)"""
@@ -218,7 +228,7 @@ def _elim_patterns():
                     for y in (a, n):
                         out.append(f"{x} {outer} ({y} {inner} {bb})")
                         out.append(f"({bb} {inner} {y}) {outer} {x}")
-    return list(dict.fromkeys(out))
+    return _GIVE_UP + list(dict.fromkeys(out))
 
 
 A_MED = A_TRI + ["x IN (1, NULL)", "k", "NULL", "y = 1"]
@@ -557,15 +567,22 @@ def _call(fname, e, dialect, coalesce):
         return N.normalize(e, dnf=False)
     if fname == "normalize_dnf":
         return N.normalize(e, dnf=True)
+    # a small max_distance: the rewrite may start and give up half way (the fallback must hand back the input)
+    if fname == "normalize_cnf_d6":
+        return N.normalize(e, dnf=False, max_distance=6)
+    if fname == "normalize_dnf_d6":
+        return N.normalize(e, dnf=True, max_distance=6)
     raise ValueError(fname)
 
 
-FUNCTIONS = ["simplify", "simplify_cp", "normalize_cnf", "normalize_dnf"]
+FUNCTIONS = ["simplify", "simplify_cp", "normalize_cnf", "normalize_dnf", "normalize_cnf_d6", "normalize_dnf_d6"]
 REAL_NAME = {
     "simplify": "sqlglot.optimizer.simplify.simplify",
     "simplify_cp": "sqlglot.optimizer.simplify.simplify(constant_propagation=True)",
     "normalize_cnf": "sqlglot.optimizer.normalize.normalize(dnf=False)",
     "normalize_dnf": "sqlglot.optimizer.normalize.normalize(dnf=True)",
+    "normalize_cnf_d6": "sqlglot.optimizer.normalize.normalize(dnf=False, max_distance=6)",
+    "normalize_dnf_d6": "sqlglot.optimizer.normalize.normalize(dnf=True, max_distance=6)",
 }
 MYSQL, REDSHIFT = "mysql", "redshift"
 
@@ -588,6 +605,9 @@ def configs(e, tier):
         if tier == "thorough" or has_co:
             out.append((fn, REDSHIFT, has_co))
     out += [("normalize_cnf", None, False), ("normalize_dnf", None, False)]
+    # (BETWEEN is rewritten before the distance check and never undone: a known deviation of its own, kept out of this clause)
+    if sum(1 for _ in e.find_all(exp.Connector)) >= 3 and e.find(exp.Between) is None:
+        out += [("normalize_cnf_d6", None, False), ("normalize_dnf_d6", None, False)]
     return out
 
 
@@ -653,7 +673,7 @@ def run_config(e, text, typed, fname, dialect, coalesce, transparency=False):
     else:
         STATS["whole_checks_identity"] += 1
     if fname.startswith("normalize"):
-        dnf = fname.endswith("dnf")
+        dnf = "dnf" in fname
         if not (N.normalized(r, dnf=dnf) or r == e):
             form = "DNF" if dnf else "CNF"
             if N.normalized(r.copy(), dnf=dnf):
